@@ -277,6 +277,24 @@ def closure(ctx, P, cname):
                     ctx.violation(ob, "R11.decimal-float", "%s.%s" % (cls.name, m), unparse(x)[:100], "decimal-meets-float",
                                   "sum() over a list holding both Decimal and float elements raises TypeError in exact mode", loc(x))
     ctx.floor("%s arithmetic sites" % cname, n, 8 if cname == "ExactNode" else 1)
+    if cname == "ExactNode":
+        ob2 = ctx.ob("R11.records", "ExactNode view: every date/duration field of every DataRecord is Decimal-typed (or the nan / sentinel placeholder), never a may-Float")
+        k = 0
+        for m in view.methods():
+            cls, fn = view.resolve(m)
+            for x in ast.walk(fn):
+                if isinstance(x, ast.Call) and call_name(x) == "DataRecord":
+                    for kw in x.keywords:
+                        if kw.arg in ("arrival_date", "waiting_time", "service_start_date", "service_time", "service_end_date", "time_blocked", "exit_date"):
+                            k += 1
+                            if isinstance(kw.value, ast.Name) and kw.value.id == "nan":
+                                continue
+                            t = T.ty(kw.value, fn)
+                            ob2.ok("%s.%s:%s" % (cls.name, m, kw.arg), "%s.%s: %s=%s : %s" % (cls.name, m, kw.arg, unparse(kw.value)[:50], "|".join(sorted(t))))
+                            if FLT in t:
+                                ctx.violation(ob2, "R11.record-type", "%s.%s" % (cls.name, m), "%s=%s" % (kw.arg, unparse(kw.value)[:80]), "record-field-may-be-float",
+                                              "in exact mode the record field %s is built from `%s`, which may be a binary float (use self.now / increment_time)" % (kw.arg, unparse(kw.value)[:60]), loc(kw.value))
+        ctx.floor("record date fields typed", k, 20)
 
 
 def overrides(ctx, P):
